@@ -693,6 +693,87 @@ func c10Sweep(c *Ctx) error {
 	}
 	c.R.Note("boundary-value documents: %d", bnd)
 
+	// long flat runs: one small unit repeated tens of thousands of times behind a short prefix — the inputs on which a
+	// look-ahead buffer, a merge loop or a rescan that is linear per step becomes quadratic in total ("no hang")
+	long := 0
+	size := c.N(64<<10, 512<<10)
+	timeL := func(mt, doc string) (time.Duration, string) {
+		in := []byte(doc)
+		t0 := time.Now()
+		crash := h.Safely(30*time.Second, func() {
+			m := c10Registry()
+			var w bytes.Buffer
+			_ = m.Minify(mt, &w, bytes.NewReader(in))
+		})
+		return time.Since(t0), crash
+	}
+	runL := func(mt, prefix, unit, suffix string) {
+		reps := size / len(unit)
+		doc := prefix + strings.Repeat(unit, reps) + suffix
+		el, crash := timeL(mt, doc)
+		long++
+		key := fmt.Sprintf("long run %s %s + %d x %s + %s", mt, h.Q([]byte(prefix)), reps, h.Q([]byte(unit)), h.Q([]byte(suffix)))
+		st.Count(key, true)
+		st.Tag("long-run")
+		if crash != "" {
+			c.R.Add(h.Finding{Stage: st.Name, Kind: "fail", What: "minifier " + crash + " on a long flat run", Input: key, Config: fmt.Sprintf("%d bytes", len(doc))})
+			return
+		}
+		if el > 5*time.Second+time.Duration(len(doc))*2*time.Millisecond/10 {
+			c.R.Add(h.Finding{Stage: st.Name, Kind: "fail", What: fmt.Sprintf("minifier took %v for %d bytes of a long flat run (bound 5 s + 0.2 ms/byte)", el, len(doc)), Input: key})
+			return
+		}
+		if el > 300*time.Millisecond {
+			// growth: four times the input may cost four times the time (allow eight, plus slack for a loaded machine); the
+			// comparison is repeated and only a result that holds three times in a row is reported
+			small := prefix + strings.Repeat(unit, reps/4) + suffix
+			worst := true
+			var tS, tL time.Duration
+			for try := 0; try < 3 && worst; try++ {
+				tS, _ = timeL(mt, small)
+				tL, _ = timeL(mt, doc)
+				worst = tL > 8*tS+150*time.Millisecond
+			}
+			st.Tag("long-run-growth-measured")
+			if worst {
+				c.R.Add(h.Finding{Stage: st.Name, Kind: "fail", What: fmt.Sprintf("running time grows faster than linearly on a long flat run: %v for %d bytes but %v for %d bytes", tS, len(small), tL, len(doc)), Input: key})
+			}
+		}
+	}
+	for _, pre := range []string{"", "x ", "<ul><li>a</li>", "<p>x ", "<pre> x ", "<table><tr><td>a</td>", "<select><option>a"} {
+		for _, u := range []string{"</i>", "<i>", "<!--c-->", "<b x=y>", " ", "a ", "&amp;", "<p>", "</p>", "<br>", "<li>", "x </i>", "</li> ", "<!--c--> ", "</option>", "<td>", " </td>"} {
+			runL("text/html", pre, u, "")
+		}
+	}
+	for _, mt := range []string{"text/xml", "image/svg+xml"} {
+		root := "<r>"
+		if mt == "image/svg+xml" {
+			root = "<svg>"
+		}
+		for _, pre := range []string{root, root + "x ", root + "<a b='c'"} {
+			for _, u := range []string{"</a>", "<a>", "<!--c-->", "<?p x?>", "<![CDATA[]]>", "<a/>", " ", "x ", "<!--c--> ", " b='c'", "]", "&gt;"} {
+				runL(mt, pre, u, "")
+			}
+		}
+	}
+	runL("image/svg+xml", `<svg><path d="M`, "1 ", `"/></svg>`)
+	runL("image/svg+xml", `<svg><path d="M0 0`, "l1 1", `"/></svg>`)
+	runL("image/svg+xml", `<svg><path d="M0 0`, "A1 1 0 0 1 2 2", `"/></svg>`)
+	for _, pre := range []string{"", "a{", "a{b:", "@media x{", "a{b:url(", "a{unicode-range:"} {
+		for _, u := range []string{"a{}", ";", "a,", "/**/", " ", "}", "{", "(", "@x;", "b:c;", "1px ", "U+1,", "a ", "[", ")"} {
+			runL("text/css", pre, u, "")
+		}
+	}
+	for _, pre := range []string{"", "x=", "function f(){", "var a;", "if(a)"} {
+		for _, u := range []string{";", "a;", "+a", "(", "[", "{", ",a", "!", "a=", ".a", "/**/", "\n", "a\n", "var b;", "if(a)", "else;", "`", "a?b:"} {
+			runL("application/javascript", pre, u, "")
+		}
+	}
+	for _, u := range []string{"[", "1,", `{"a":`, " ", `"a",`, "[],", "{},"} {
+		runL("application/json", "[", u, "")
+	}
+	c.R.Note("long flat runs: %d documents of about %d bytes", long, size)
+
 	// deep nesting in a subprocess
 	dir, err := os.MkdirTemp("", "verif-c10-")
 	if err != nil {
